@@ -20,6 +20,9 @@ func main() {
 		os.Exit(kit.ExitInfra)
 	}
 	id := os.Args[1]
+	if id == "c16-child" { // a writer / reader process of C16's process scenarios
+		os.Exit(checks.C16ChildMain())
+	}
 	tier := "quick"
 	if len(os.Args) > 2 {
 		tier = os.Args[2]
